@@ -605,6 +605,12 @@ func (m *Machine) exec(fr *Frame, ins ssa.Instruction) {
 			m.goPanic("runtime error: makeslice: len out of range")
 		}
 		if c > m.allocLimit() {
+			if _, ok := m.cfg.Opts["allocfail"]; ok {
+				// the harness states "memory bounded by the input size": an allocation beyond the bound is a failure
+				// of that obligation (the native side measures the allocation and fails the same label)
+				m.assertCond(m.tt.F, "allocation bounded by the input size", "assert")
+				panic(abortPath{"end", "Fail"})
+			}
 			m.goPanic("engine: makeslice larger than 65536 elements (allocation assertion)")
 		}
 		et := x.Type().Underlying().(*types.Slice).Elem()
